@@ -79,7 +79,7 @@ func addSubstProcs(r rng, p *sdl.Program) {
 					continue
 				}
 				ru := &sdl.Rule{Target: tgt.ID, At: at, Action: action, Sub: s, Fresh: action == "substitute" && r.p(0.15)}
-				if tt := p.TypeByName(tgt.Type); len(plan) == 1 && action == "substitute" && (at == sdl.CbBefore || at == sdl.CbAfter) && !tt.Zero && !tt.Local && !sdl.IsAlt(tt.Name) && !ru.Fresh && r.p(0.3) {
+				if tt := p.TypeByName(tgt.Type); len(plan) == 1 && action == "substitute" && (at == sdl.CbBefore || at == sdl.CbAfter) && !tt.Zero && !tt.Local && !sdl.IsAlt(tt.Name) && !ru.Fresh && !hasSinglePtrPoint(p, tt.Name) && r.p(0.3) {
 					// a decorator that embeds the component: its Init / AfterPropertiesSet are the component's
 					ru.SubType = sdl.DecoOf(tt.Name)
 				}
@@ -1153,4 +1153,18 @@ func genWrapName(r rng, seed uint64, id string) *sdl.Program {
 	p.Procs = []*sdl.Proc{{ID: "pp0", Class: class, OrderClass: pick(r, orderClasses), Order: pick(r, []int{-3, 0, 5, 100}),
 		Rules: []*sdl.Rule{{Target: "c0", At: at, Action: "substitute", Sub: "s0", SubType: w.Name}}}}
 	return p
+}
+
+// hasSinglePtrPoint: some single-valued point asks for *T by type. A decorator of a T does not
+// fit such a field, and how a candidate whose published version does not fit ranks against one
+// that does is settled by no statement: decorators keep away from such types.
+func hasSinglePtrPoint(p *sdl.Program, typeName string) bool {
+	for _, t := range p.Types {
+		for _, pt := range t.Points {
+			if pt.Kind == sdl.KPtr && pt.Target == typeName {
+				return true
+			}
+		}
+	}
+	return false
 }
